@@ -5,7 +5,7 @@ PD=$1; ID=$2; shift 2
 CHECKS=${@:-$ID}
 E=/root/work/EVAL
 git -C $E/repo checkout -q -- . ; git -C $E/repo reset -q --hard main
-git -C $E/verif merge -q --no-edit main >/dev/null 2>&1
+git -C $E/verif checkout -q -- . ; git -C $E/verif clean -fdq replays; git -C $E/verif merge -q --ff-only main >/dev/null 2>&1 || echo "EVAL MERGE FAILED"
 export VERIF_ROOT=$E/verif VERIF_TMP=/dev/shm/vcheck-eval; mkdir -p $VERIF_TMP
 git -C $E/repo apply $PD/$ID/out/patch.diff || { echo "seeded $ID: patch does not apply"; exit 2; }
 mkdir -p /tmp/runlogs2
